@@ -174,7 +174,13 @@ func (j *ShardedJob) superviseOne(shard, of, from int, rep *Reporter, st *ShardS
 	if timeout == 0 {
 		timeout = 60 * time.Second
 	}
-	timer := time.NewTimer(timeout)
+	// a worker builds its list of cases before it reports the first one: on a loaded machine that
+	// start-up can take minutes for the largest families and is not a hang of the code under test
+	startup := 20 * time.Minute
+	if startup < timeout {
+		startup = timeout
+	}
+	timer := time.NewTimer(startup)
 	defer timer.Stop()
 	for {
 		select {
